@@ -607,6 +607,8 @@ var modNames = []string{"m", "tools", "quote", "repo", "pkg-x", "a_b", "z9", "Mi
 var modExoticPaths = []string{"example.com/a b", "example.com/a\"q", "example.com/(paren)", "ex.com/a//b", "ex.com/a/*b", "世界.com/m", "ex.com/a,b",
 	"ex.com/[x]", "ex.com/a\tb", "ex.com/\x00z", "ex.com/it's", "ex.com/`bq`", "ex.com/\xffbad", "ex.com/{c}", "ex.com/nb\u00a0sp", "ex.com/e\u0301",
 	"ex.com/new\nline", "(x", "a)", "module x", "ex.com/back\\slash", "ex.com/🙂", "ex.com/trailing\\", "ex.com/sp ace\\", "\\",
+	// values that begin and end with a quote character of their own
+	"\"my dir\"", "\"\"", "\"x", "'single'",
 	// values spelled like tokens of the grammar itself
 	"=>", "=>x", "require", "replace", "go", "v1.0.0", "module"}
 
